@@ -9,12 +9,14 @@ XercesDOMParser, DOMLSParser) x scanner (IG, WF, DG, SG); after every parse the 
 parse on a freshly constructed parser and the abstract outcome TLC computed; stale tokens must be refused; the pool's keys must be
 the specification's after every step; adopted documents are re-dumped after every later step.
 
-Mutants (mutants/C15/*.diff, all DETECTED by the quick tier):
-  no_standalone_reset       IGXMLScanner::scanReset without fStandalone = false
-  no_validation_ctx_reset   IGXMLScanner::scanReset without resetValidationContext()
-  no_seqid_bump             IGXMLScanner::scanDocument without fSequenceId++
-  no_readermgr_janitor      IGXMLScanner::scanDocument: ReaderMgrResetType janitor released on every path
-  cache_ignores_lock        XMLGrammarPoolImpl::cacheGrammar ignores fLocked
+Mutants (mutants/C15/*.diff; `./bin/mutant-run C15 mutants/C15/*.diff`, quick tier):
+  no_standalone_reset          IGXMLScanner::scanReset without fStandalone = false                      DETECTED (differs-from-fresh, doc 10 after doc 4)
+  no_validation_ctx_reset      IGXMLScanner::scanReset without resetValidationContext()                 DETECTED (differs-from-fresh: duplicate ID / dangling IDREF)
+  no_seqid_bump                IGXMLScanner::scanDocument without fSequenceId++                         DETECTED (stale-token-accepted, crash in parseNext)
+  no_readermgr_reset_on_fatal  IGXMLScanner::scanDocument releases the ReaderMgr janitor on a first fatal DETECTED (differs-from-fresh after a malformed document)
+  cache_ignores_lock           XMLGrammarPoolImpl::cacheGrammar ignores fLocked                         see mutants/C15/RESULTS.txt
+Not covered by a source mutant: fDTDElemNonDeclPool->removeAll() (no later dump depends on the undeclared-element pool; it is part of
+ResetEstablishesInit on the specification only - a scanReset hook (family H5) would be needed to bind it).
 Genuine defects of the pinned tree found by this check: known_findings.d/C15.json.
 """
 import json
